@@ -219,6 +219,7 @@ def main(rec):
         for k in range(nvar):
             routes = r.choice([("file",), ("code",), ("file", "code"), ("file", "decl"), ("code", "decl"), ("file", "code", "decl")])
             supplied = {}   # (lang, name) -> (route, lines)
+            forced_decls = {}
             files = {}
             dd = copy.deepcopy(d)
             argv_extra = []
@@ -267,6 +268,8 @@ def main(rec):
                     if sp_l:
                         e["splicer"] = sp_l
                         supplied[("decl", id(e))] = ("decl", sp_l)
+                        for lang_, b_ in sp_l.items():
+                            forced_decls[b_[0]] = {"decl": e["decl"], "options": e.get("options"), "lib_options": {k: v for k, v in (dd.get("options") or {}).items() if k.startswith("wrap_")}, "language": dd.get("language")}
             cmd_files = files.pop("__cmdline__", [])
             sp = plain_spec(dsc, files, dd)
             base_argv = list(argv)
@@ -280,6 +283,7 @@ def main(rec):
             sp["argv"] = base_argv + [yrel] + cmd_files
             sp["supplied"] = {"%s|%s" % k_: v for k_, v in supplied.items() if k_[0] != "decl"}
             sp["forced"] = [v[1] for k_, v in supplied.items() if k_[0] == "decl"]
+            sp["forced_decls"] = forced_decls
             sp["routes"] = routes
             sp["defaults"] = {"%s|%s" % k_: v for k_, v in defaults.items()}
             jobs.append(sp)
@@ -420,9 +424,63 @@ def judge_supplied(rec, sp, rr):
                             rec.violation(classify("decl", norm(body), norm(b), False, sp["routes"]),
                                           "%s: declaration-level %s splicer\n want %r\n got  %r" % (sp["name"], lang, norm(body), norm(b)), sp)
             if not found:
-                rec.count("forced_bodies_not_emitted")
+                # outputs without splicer markers (show_splicer_comments off): look for the body in the raw text
+                for rel, text in rr["outputs"].items():
+                    if rel.endswith((".json", ".log", ".yaml", ".txt")):
+                        continue
+                    lines = [x.strip() for x in text.split("\n")]
+                    if mark in lines:
+                        i = lines.index(mark)
+                        found = True
+                        rec.count("forced_bodies_checked")
+                        if lines[i:i + len(body)] != norm(body):
+                            rec.violation(classify("decl", norm(body), lines[i:i + len(body)], False, sp["routes"]),
+                                          "%s: declaration-level %s splicer (no markers in %s)\n want %r\n got  %r" % (
+                                              sp["name"], lang, rel, norm(body), lines[i:i + len(body)]), sp)
+                        break
+            if not found:
+                # legitimate only when Shroud itself says that this declaration has no wrapper in that language
+                # (its JSON dump records the effective wrap flags of every function node)
+                info = (sp.get("forced_decls") or {}).get(mark) or {}
+                flag = {"c": "c", "f": "fortran", "py": "python"}[lang]
+                on = _wrap_on(rr, info.get("decl"), flag)
+                dtxt = info.get("decl") or ""
+                if lang == "c" and (re.search(r"std::vector\s*<", dtxt) or re.match(r"\s*(const\s+)?std::string\s+\w+\s*\(", dtxt)):
+                    on = False      # no plain C entry point exists for these (only the bufferify one, splicer key c_buf)
+                if lang == "py" and dtxt.lstrip().startswith("~"):
+                    on = False      # the Python destructor is the type's tp_del, not a wrapped method
+                if on:
+                    rec.violation("declaration-level-body-not-emitted:%s" % lang,
+                                  "%s: %r carries a %s splicer and its %s wrapper is on (Shroud's own dump), but the body appears in no block of the output" % (
+                                      sp["name"], info.get("decl"), lang, flag), sp)
+                else:
+                    rec.count("forced_bodies_not_emitted_wrapper_off")
     rec.case(key="%s|%s|%s" % (sp["name"], sp["routes"], sorted(sp["supplied"])) if emitted_user or sp["forced"] else None,
              sample={"description": sp["name"], "routes": sp["routes"], "supplied": sorted(sp["supplied"])[:6]})
+
+
+def _wrap_on(rr, decl, flag):
+    """True if a function node with this declaration text has wrap[flag] in Shroud's JSON dump of the run."""
+    if not decl:
+        return False
+    import json as _json
+    for rel, text in rr["outputs"].items():
+        if not rel.endswith(".json"):
+            continue
+        try:
+            doc = _json.loads(text)
+        except ValueError:
+            continue
+        stack = [doc]
+        while stack:
+            x = stack.pop()
+            if isinstance(x, dict):
+                if x.get("decl") == decl and isinstance(x.get("wrap"), dict) and x["wrap"].get(flag):
+                    return True
+                stack.extend(x.values())
+            elif isinstance(x, list):
+                stack.extend(x)
+    return False
 
 
 def classify(route, want, got, kept_default, routes):
